@@ -143,6 +143,8 @@ func main() {
 		code = runSelftest(os.Args[2:])
 	case "build":
 		code = runBuildAll()
+	case "gentest":
+		code = runGentest(os.Args[2:])
 	default:
 		infra("unknown command %q", os.Args[1])
 	}
@@ -154,6 +156,8 @@ func runCheck(prop, tier string) int {
 	switch prop {
 	case "C03", "C07":
 		return checkSrcsim(prop, tier)
+	case "C05":
+		return checkC05(tier)
 	}
 	infra("no check registered for %s", prop)
 	return 2
@@ -163,6 +167,7 @@ func runBuildAll() int {
 	if _, err := buildFrontw(false); err != nil {
 		infra("%v", err)
 	}
+	buildToolchain()
 	return 0
 }
 
